@@ -140,7 +140,8 @@ func main() {
 		w = world.New("C01")
 	}
 	defer w.Close()
-	other := world.New("C01-other") // unrelated PKI for the second CRL
+	w.CRL.Fragment.Store(shardIndex()%2 == 1) // odd workers: CRL bodies arrive in two chunks
+	other := world.New("C01-other")           // unrelated PKI for the second CRL
 	defer other.Close()
 	intPEM := pki.WritePEM(filepath.Join(scratch, "int.pem"), w.Int.Cert)
 	otherPEM := pki.WritePEM(filepath.Join(scratch, "other-int.pem"), other.Int.Cert)
